@@ -257,6 +257,7 @@ class extract_visitor(NodeVisitor):
         cur = self.flow
         self.visit_in_flow(node.decorator_list, cur)
         self.visit_in_flow(node.bases, cur)
+        self.visit_in_flow([kw.value for kw in getattr(node, 'keywords', [])], cur)
         scope = ClassScope(cur.scope, node, top=self.top)
         cur.add_name(scope)  # type: ignore[arg-type]  # TODO
         self.visit_in_flow(node.body, scope.flow)
